@@ -2,6 +2,8 @@
 Coq emission for trace acceptance, coverage counting, replay printing.  The direct oracles themselves live in
 harness/props/Cxx.py (one literal transcription of each statement)."""
 import json
+import random
+import zlib
 
 import common as C
 from cli_args import cli_argv
@@ -19,8 +21,90 @@ BAD_PAYLOADS = [b"-1", b"", b"null", b"0", b"{}", b"[]", b'"x"', b'{"task_name":
                 b'{"task_id": 1, "task_name": "ta", "labels": [], "args": 5, "kwargs": null}', b"\xff\xfe\x00garbage", b"-1 ", b"true"]
 
 
+AW_STYLES = ["future", "future", "task", "task", "awaitobj", "gencoro", "async"]
+AW_DELAYS = [0, 1, 50_000, 300_000, 300_000, US, 2 * US]
+
+
+def decorate(sc, prof):
+    """Second generation stage, applied to a modest fraction of the scenarios (prof: aw_p, default .15; outage_p, default .06).
+    All draws come from a generator seeded with a hash of the base scenario, so the base stream of every profile is what
+    it was (the other scenarios are bit-identical) and the result is still a function of (seed, index).
+      awaitables: ack callables / middleware hooks that are plain functions returning an awaitable which is NOT a coroutine
+        object (asyncio.Future resolved later, Task from ensure_future, object with __await__, generator-based coroutine) or
+        an `async def` that takes time; the acknowledgement / hook completes `us` later.  More messages become ackable.
+      outage: the result backend rejects set_result for a run of consecutive messages (sometimes after hanging for a
+        while), sometimes together with acknowledgements that take time."""
+    aw_p, out_p = prof.get("aw_p", .15), prof.get("outage_p", .06)
+    rr = random.Random(zlib.crc32(json.dumps(sc, sort_keys=True).encode()))
+    k = rr.random()
+    if k >= aw_p + out_p:
+        return sc
+    msgs = [m for m in sc["msgs"] if not m.get("probe")]
+    extra = 0
+    if k < aw_p:
+        sc["flavour"] = "awaitables"
+        style1 = rr.choice(AW_STYLES) if rr.random() < .4 else None         # one client library for the whole broker, or a mix
+        for m in msgs:
+            if m["ack"] == "none" and rr.random() < .6:
+                m["ack"] = "sync"
+            if m["ack"] != "none" and rr.random() < .8:
+                m["ack"] = style1 or rr.choice(AW_STYLES)
+                m["ack_us"] = rr.choice(AW_DELAYS)
+                extra += m["ack_us"]
+            if m["kind"] == "ok" and rr.random() < .3:
+                fails = m["out"] != "ret" or (m.get("tlabel_us") is not None and m["tlabel_us"] < m["dur"])
+                where = rr.choice(["pre", "post", "post", "post_save"] + (["on_error", "on_error"] if fails else []))
+                m["hook_aw"] = dict(where=where, style=rr.choice(AW_STYLES[:-1]), us=rr.choice(AW_DELAYS))
+                extra += m["hook_aw"]["us"]
+    else:
+        sc["flavour"] = "outage"
+        ok = [j for j, m in enumerate(msgs) if m["kind"] == "ok"]
+        if ok:
+            lo = rr.choice(ok[:max(1, len(ok) // 2)])
+            n = rr.choice([1, 2, 3, len(msgs), len(msgs)])
+            slow_ack = rr.random() < .3
+            for m in msgs[lo:lo + n]:
+                if m["kind"] != "ok" or m.get("pre_fail") or m.get("post_fail") or m.get("psave_fail") or m.get("onerr_fail") \
+                        or m.get("fail_exc"):
+                    continue
+                m["save_fail"] = True
+                if rr.random() < .3 and not m.get("fail_after_us"):
+                    m["fail_after_us"] = rr.choice([1, 50_000, 300_000, US])       # the backend call hangs, then fails
+                    extra += m["fail_after_us"]
+                if slow_ack and m["ack"] != "none":
+                    m["ack"] = rr.choice(["async", "future", "task"])
+                    m["ack_us"] = rr.choice(AW_DELAYS[1:])
+                    extra += m["ack_us"]
+    if extra:
+        # everything the horizon / the probe instant were computed from has become longer by at most `extra`
+        sc["horizon_us"] += extra
+        if "probe_at" in sc:
+            sc["probe_at"] += extra
+            for m in sc["msgs"]:
+                if m.get("probe"):
+                    m["at"] += extra
+    return sc
+
+
+def count_inputs(rep, sc):
+    """evidence distribution of the second-stage input kinds"""
+    rep.count("input-flavour:" + sc.get("flavour", "base"))
+    for m in sc["msgs"]:
+        if m.get("ack", "none") not in ("none", "sync", "async") or m.get("ack_us"):
+            rep.count("ack-callable:%s%s" % (m["ack"], "/completes-later" if m.get("ack_us") else "/completes-at-once"))
+        if m.get("hook_aw"):
+            h = m["hook_aw"]
+            rep.count("hook-returning-awaitable:%s/%s%s" % (h["where"], h["style"], "/completes-later" if h.get("us") else ""))
+    if sc.get("flavour") == "outage":
+        rep.count("backend-outage:%d-messages" % min(sum(1 for m in sc["msgs"] if m.get("save_fail")), 6))
+
+
 def gen_scenario(r, prof):
-    """prof: dict(limited_only, backlog, never, stop_p, n_p, ends_p, probe, faults, wtt_p, slowcancel, abort_p)"""
+    """prof: dict(limited_only, backlog, never, stop_p, n_p, ends_p, probe, faults, wtt_p, slowcancel, abort_p, aw_p, outage_p)"""
+    return decorate(gen_base(r, prof), prof)
+
+
+def gen_base(r, prof):
     A = r.choice([1, 1, 2, 2, 3, 4] if prof.get("limited_only") else [None, 0, 1, 1, 1, 2, 2, 3, 4])
     P = r.choice([0, 0, 1, 1, 2, 3, 4])
     a_eff = A if A else 4
@@ -160,6 +244,7 @@ class Facts:
 
         self.cbstart, self.cbend, self.cbdone = times("cb.start"), times("cb.end"), times("cb.done")
         self.bodyin, self.bodyout, self.acks = times("body.in"), times("body.out"), times("ack")
+        self.ackend = times("ack.end")       # `ack` = the ack callable was invoked, `ack.end` = the acknowledgement completed
         N = sc["N"]
         self.budget_t = self.takes[N - 1][0] if N and len(self.takes) >= N else None
         cands = [x for x in (self.stop_t, self.budget_t, self.brk_end_t) if x is not None]
@@ -273,7 +358,9 @@ def replay_print(ctx, path, oracle, check):
     shown = [e for e in raw if e[1] not in ("fin?", "poll", "semp.acq", "semp.rel") or e[0] == 0]
     for e in shown[:300]:
         print("  %10d %s %s%s" % (e[0], e[1], "" if e[2] is None else e[2],
-                                   " (the callback task ended CANCELLED)" if e[1] == "cb.done" and e[3] == "cancelled" else ""))
+                                   " (the callback task ended CANCELLED)" if e[1] == "cb.done" and e[3] == "cancelled" else
+                                   " (%s)" % e[3] if e[1] in ("ack", "hook.aw", "hook.aw.end") and e[3] else
+                                   " (a task was created while this message's callback task was running)" if e[1] == "bg.new" else ""))
     print("  (%d raw events, idle polling omitted)" % len(raw))
     lts = obs["lts"]
     print("LTS trace (%d events): %s%s" % (len(lts), "; ".join(lts[:120]), " ..." if len(lts) > 120 else ""))
